@@ -175,7 +175,16 @@ pub fn run_c13(a: &Args, rep: &mut Report) {
             let mode = rng.below(40);
             let (line, enc) = if mode == 0 {
                 // unknown mnemonic
-                let bogus = match rng.below(3) {
+                let bogus = match rng.below(5) {
+                    // the mnemonic without its width / size suffix ("be", "le", "ldx", "st", "ldabs" ...;
+                    // where the stem is itself documented - "add", "jeq" - the candidate is dropped below)
+                    3 => {
+                        let t = name.trim_end_matches(|ch: char| ch.is_ascii_digit());
+                        let t = if t.len() == name.len() { t.strip_suffix("dw").or_else(|| t.strip_suffix('b')).or_else(|| t.strip_suffix('h')).or_else(|| t.strip_suffix('w')).unwrap_or(t) } else { t };
+                        if t.is_empty() || t.len() == name.len() { format!("{name}_") } else { t.to_string() }
+                    }
+                    // a numeric suffix that is not a width (also far beyond any integer type)
+                    4 => format!("{}{}", name.trim_end_matches(|ch: char| ch.is_ascii_digit()), *rng.pick(&["8", "24", "48", "128", "256", "4294967295", "4294967296", "18446744073709551616", "99999999999999999999999999", "064", "0"])),
                     0 => format!("{}{}", name, *rng.pick(&["x", "q", "128", "8", "64", "32", "16", "b", "h", "w", "dw", "0", "i", "s"])),
                     1 => format!("{}{}", *rng.pick(&["s", "x", "j", "ld", "st", "u", "a"]), name),
                     _ => {
